@@ -1,6 +1,6 @@
 """C14 — concurrent queries are race-free; gwb-grid output does not depend on -j."""
 from .. import facts, run
-from ..rules import pure
+from ..rules import pure, par
 
 
 def main(tier):
@@ -11,6 +11,31 @@ def main(tier):
     rep.floor("PURE.roots", len(roots), 12, "query root functions")
     E, R, S, rc = pure.run(P, rep, roots)
     pure.stream_io(P, rep, R)
+    sites = par.parallel_sites(P)
+    rep.floor("PAR.sites", len(sites), 2, "parallel_for call sites with a lambda")
+    pools = {}
+    for F, call, lam, op, PF in sites:
+        par.check_lambda(P, rep, F, call, lam, op)
+        # the world is used through const members only, and those members are PURE roots
+        for n in op.walk():
+            if n.get("k") == "CXXMemberCallExpr" and P.d(n.get("callee")).get("cls") == "WorldBuilder::World":
+                d = P.d(n["callee"])
+                if not d.get("const"):
+                    rep.violation("PAR.world", "non-const World member %s called from a parallel callable" % d.get("qn"),
+                                  op.nloc(n), op.qn, d.get("qn"), "shared world modified concurrently",
+                                  key="PAR.world|%s" % d.get("qn"))
+                elif n["callee"] not in {r.key for r in roots}:
+                    rep.violation("PAR.world", "World member %s is not an analysed query root" % d.get("qn"), op.nloc(n), op.qn,
+                                  d.get("qn"), "not covered by PURE", key="PAR.world|root|%s" % d.get("qn"))
+                else:
+                    rep.ok("PAR.world", "%s calls %s" % (op.nloc(n), d.get("qn")), op.nloc(n), op.qn)
+        if PF is None:
+            rep.unknown("PAR.pool", "no body for the parallel_for instantiation called at %s" % F.nloc(call))
+        else:
+            pools[PF.key] = PF
+    for PF in pools.values():
+        par.check_pool(P, rep, PF)
+    par.after_join_single_threaded(P, rep, None)
     rep.explanation = ("Effect analysis over the class-hierarchy call graph from the World query entry points: no "
                        "reachable function writes memory that outlives the call (no data race is possible without a "
                        "shared write), no shared stream I/O.")
